@@ -38,9 +38,17 @@ def extra_obligations():
     r = extract_ir.check(core.REPO, core.LEAN)
     if r["status"] == "unrecognised":
         return [{"name": "Haiway.Generated.*", "status": "skipped",
-                 "note": "extractor does not recognise the shape of ScopeContext enter/exit: " + r["detail"]}]
+                 "note": "extractor does not recognise the shape of ScopeContext enter/exit: " + r["detail"]}] + _contexts()
     return [{"name": f"Haiway.Generated.{n}", "status": "broken" if n in r["failed"] or (r["status"] == "broken" and r["failed"] == ["<elaboration>"]) else "ok",
-             "detail": r["detail"], "note": "regenerated from access.py"} for n in extract_ir.OBLIGATIONS]
+             "detail": r["detail"], "note": "regenerated from access.py"} for n in extract_ir.OBLIGATIONS] + _contexts()
+
+
+def _contexts():
+    """what the IR's atoms assume about StateContext / MetricsContext / TaskGroupContext enter and exit (set with token,
+    reset of that token), re-proved about the MiniPy terms regenerated from state.py / metrics.py / tasks.py"""
+    from harness import core, regen
+
+    return regen.check("contexts", core.REPO, core.LEAN)
 
 
 def corpus():
